@@ -69,6 +69,9 @@ def oracle(case):
         if f is None or t is None:
             return "attempt %d: times are not dyadic fractions of the step" % a["idx"]
         if not a["from_converged"]:
+            if case.get("real"):
+                return ("attempt %d starts from a state whose content is %s, not that of the last accepted state %d"
+                        % (a["idx"], "what failed attempt %d left behind" % (a["from_state"] - 1) if a["from_state"] != 9999 else "neither accepted nor recorded", st))
             return "attempt %d starts from the state of a failed sub-increment" % a["idx"]
         if a["from_state"] != st:
             return "attempt %d starts from state %d, not from the last accepted state %d" % (a["idx"], a["from_state"], st)
@@ -112,6 +115,13 @@ def jobs_for(ctx, deep):
         for forced in (False, True):
             for ndim in (1, 2, 3):
                 jobs.append({"kind": "tree", "n": n, "forced": forced, "ndim": ndim})
+    # the real per-increment solver on small real tubes (a scripted failure is a genuine non-converged Newton solve);
+    # the state an attempt starts from is identified by its content
+    for n in ([1, 2, 3, 4] if deep else [1, 2, 3]):
+        for forced in (False, True):
+            for ndim in (1, 2, 3):
+                if n <= (3 if ndim == 1 else 2) + (1 if deep else 0):
+                    jobs.append({"kind": "realtree", "n": n, "forced": forced, "ndim": ndim, "with_T": (n + ndim) % 2 == 0})
     # sampled deeper limits and the optional inputs switched off
     for n in (5, 6):
         for _ in range(ctx.budget(20, 200)):
@@ -126,10 +136,13 @@ def jobs_for(ctx, deep):
 
 def run(ctx):
     ctx.rule = ("cases = failure patterns of the per-increment solver, enumerated exhaustively over the decision tree "
-                "(max_divide 1..4 in quick, 1..6 in thorough, all modes/abstractions; 5-6 additionally sampled with optional inputs on/off); "
+                "(max_divide 1..4 in quick, 1..6 in thorough, all modes/abstractions; 5-6 additionally sampled with optional inputs on/off), with a scripted per-increment solver, and "
+                "over max_divide 1..3 with the real solver on small real 1D/2D/3D elastic tubes where a scripted failure is a genuine non-converged Newton solve; "
                 "non-trivial = at least one failed sub-increment; distinct by (n, forced, ndim, failing set, options)")
     ctx.trusted += [
         "scripted stub replacing structural.solve_python_{1,2,3}d; duck-typed state (copy, temperature, sbasis.interpolate)",
+        "real-solver runs: wrapper around structural.solve_python_{1,2,3}d that makes scripted attempts fail inside the real Newton loop "
+        "(rtol = atol = 0, two iterations) and snapshots the content of the starting state; displacements at Dirichlet dofs are not compared",
         "modelled, not verified: the per-increment Newton solve (its convergence verdict is the oracle `fails`)",
     ]
     ctx.assumptions += ["time/pressure/temperature interpolation inside an attempt is checked by the Python oracle, not by a theorem"]
@@ -141,7 +154,8 @@ def run(ctx):
     cases = res["cases"]
     bad_oracle = []
     for c in cases:
-        key = (c["n"], c["forced"], c["ndim"], tuple(c["failing"]), c["with_T"], c["with_p"], c["dtop"])
+        key = (c["n"], c["forced"], c["ndim"], tuple(c["failing"]), c["with_T"], c["with_p"], c["dtop"], c.get("real", False))
+        ctx.count("real solver" if c.get("real") else "scripted solver")
         ctx.case(key, len(c["failing"]) > 0 and any(not a["ok"] for a in c["trace"]))
         ctx.count("n=%d" % c["n"])
         ctx.count("outcome=" + c["outcome"])
@@ -161,7 +175,7 @@ def run(ctx):
         c, msg = bad_oracle[0]
         ctx.violation("%s (max_divide=%d, %s, %dD, failing attempts %s; %d failing cases in total)"
                       % (msg, c["n"], "forced" if c["forced"] else "adaptive", c["ndim"], c["failing"], len(bad_oracle)),
-                      {"case": {k: c[k] for k in ("n", "forced", "ndim", "failing", "with_T", "with_p", "dtop")},
+                      {"case": {k: c[k] for k in ("n", "forced", "ndim", "failing", "with_T", "with_p", "dtop", "real", "real_T") if k in c},
                        "observed": c, "oracle": msg},
                       tag="C10:" + msg.split(" (")[0][:60])
 
@@ -186,7 +200,11 @@ def replay(rp):
     if not c:
         print("replay file names a broken obligation, not an input: %s" % rp.get("broken"))
         return 1
-    res = run_impl("c10_adaptive", {"jobs": [dict(kind="case", **c)]})
+    if c.get("real"):
+        res = run_impl("c10_adaptive", {"jobs": [{"kind": "real", "n": c["n"], "forced": c["forced"], "ndim": c["ndim"], "failing": c["failing"],
+                                                  "with_T": c.get("real_T", True), "dtop": c["dtop"]}]})
+    else:
+        res = run_impl("c10_adaptive", {"jobs": [dict(kind="case", **c)]})
     msg = oracle(res["cases"][0])
     print("observed:", res["cases"][0]["outcome"], [(a["from_state"], a["t_n"], a["t_np1"], a["ok"]) for a in res["cases"][0]["trace"]])
     if msg:
